@@ -30,8 +30,10 @@ def run(ctx, prop, gens, whats, nbeh, depth=80):
         # (version restarts at 1), actor 1's stale Update then succeeds on incarnation 2
         def call(h, tok=""):
             return {"h": h, "tok": tok, "fin": "", "owner": "", "exp": "any", "cond": "any"}
-        behs.insert(0, {"prog": [[call("uwc", "t1")], [call("destroy"), call("create")], [call("create")]],
-                        "sched": [{"a": a, "k": "step"} for a in (3, 1, 2, 2, 1, 1, 2, 3)]})
+        # (the two incarnations carry different contents - t3 on the first, t2 on the second, both at version 2 - so that the
+        # stale write is visible whatever else the run generated)
+        behs.insert(0, {"prog": [[call("uwc", "t1")], [call("destroy"), call("create"), call("uwc", "t2")], [call("create"), call("uwc", "t3")]],
+                        "sched": [{"a": a, "k": "step"} for a in (3, 3, 3, 1, 2, 2, 2, 2, 1, 1, 1, 2, 3)]})
         ctx.cov["directed_known_finding_scenarios"] = 1
     ctx.cov["behaviours_replayed"] = len(behs)
     ctx.cov["distinct_schedules"] = len(behs)
